@@ -74,6 +74,7 @@ type Run struct {
 	PanicIsViolation bool
 	Hook        MemHook
 	LoopBound   int
+	ReplayVals  []uint64
 	Prop        string
 	OnEnd       func(e End)
 	stopAll     bool
